@@ -332,8 +332,10 @@ class Vector(AutoSerialize):
         # Create result structure for fancy indexing
         result = []
         for idx in np.ndindex(*[len(i) for i in indices_arrays]):
-            src_idx = tuple(ind[i] for ind, i in zip(indices_arrays, idx))
-            result.append(self._data[src_idx[0]][src_idx[1]])
+            ref = self._data
+            for ind, i in zip(indices_arrays, idx):
+                ref = ref[ind[i]]
+            result.append(ref)
 
         return result
 
@@ -474,12 +476,17 @@ class Vector(AutoSerialize):
 
         # Create new shape and data
         new_shape = [len(i) for i in indices]
-        new_data = [[None] * new_shape[-1] for _ in range(new_shape[0])]
+        new_data = nested_list(tuple(new_shape), fill=None)
 
         # Fill the new data structure
         for out_idx in np.ndindex(*new_shape):
-            src_idx = tuple(ind[i] for ind, i in zip(indices, out_idx))
-            new_data[out_idx[0]][out_idx[1]] = self._data[src_idx[0]][src_idx[1]]
+            src = self._data
+            for ind, i in zip(indices, out_idx):
+                src = src[ind[i]]
+            dst = new_data
+            for i in out_idx[:-1]:
+                dst = dst[i]
+            dst[out_idx[-1]] = src
 
         # Create new Vector
         vector_new = Vector.from_shape(
